@@ -37,6 +37,25 @@ def unhex(h):
     return b'' if h == '-' else bytes.fromhex(h)
 
 
+def position_in_message(msg):
+    """(line, column) as decimal strings read out of the text a static wrapper leaves in Error::getErrorString(), or None.
+    The property constrains the two numbers, not the wording: the number behind the word `line` and the number behind the
+    word `column` / `col` when both words occur, else the first two free-standing integers of the text (not glued to a
+    letter, digit, '-' or '.': `e1`, `UTF-8`, `1.0` are no positions).  None = no position can be read from this text: then
+    the oracle makes no claim about it."""
+    num = r'(?<![\w.\-])(-?\d+)(?![\w.])'
+    ml = re.search(r'(?i)\bline\b[^\w\-]{0,3}' + num, msg)
+    mc = re.search(r'(?i)\bcol(?:umn)?\b[^\w\-]{0,3}' + num, msg)
+    if ml and mc:
+        return ml.group(1), mc.group(1)
+    if ml or mc:
+        return None
+    ints = re.findall(num, msg)
+    if len(ints) >= 2:
+        return ints[0], ints[1]
+    return None
+
+
 OUT_OPS = ('parse', 'str', 'rt', 'vdump', 'ent', 'parse2', 'pinto', 'rtinto', 'sparse', 'fload', 'fmiss', 'fsave', 'fsl')
 
 
@@ -393,14 +412,22 @@ class C16(Check):
                     found.append((unhex(a[2]), t[4], t[5]))
                 elif a[0] == 'fsl' and len(t) > 1 and t[1] == 'err' and last_str is not None:
                     found.append((last_str, t[2], t[3]))
-                elif a[0] == 'fload' and len(t) > 4 and t[3] == 'serr':
-                    m = re.match(r'Syntax error at line (-?\d+), column (-?\d+): ', unhex(t[4]).decode('latin-1'))
-                    found.append((unhex(a[2]), m.group(1), m.group(2)) if m else (unhex(a[2]), '0', '0'))
-                elif a[0] == 'sparse' and t[0] == 'serr':
-                    m = re.match(r'Syntax error at line (-?\d+), column (-?\d+): ', unhex(t[1]).decode('latin-1'))
-                    found.append((unhex(a[2]), m.group(1), m.group(2)) if m else (unhex(a[2]), '0', '0'))
+                elif (a[0] == 'fload' and len(t) > 4 and t[3] == 'serr') or (a[0] == 'sparse' and len(t) > 1 and t[0] == 'serr'):
+                    # the static wrappers report through the text in Error::getErrorString() only: the position is read out of
+                    # it whatever its wording; a text without a readable position is not judged (the text as a whole is
+                    # compared with the model's: correspondence only)
+                    msg = unhex(t[4] if a[0] == 'fload' else t[1]).decode('latin-1')
+                    p = position_in_message(msg)
+                    if p:
+                        found.append((unhex(a[2]), p[0], p[1]))
+                    elif msg == 'stale':                      # the harness's sentinel: nothing was reported at all
+                        found.append((unhex(a[2]), None, None))
                 hit = False
                 for text, l_, c_ in found:
+                    if l_ is None:
+                        fails.append((i, k, '%s: the static wrapper returned false and left Error::getErrorString() as it was before the call: no line and column reported' % a[0]))
+                        hit = True
+                        break
                     cut = text.find(b'\0')
                     if cut >= 0:
                         text = text[:cut]
@@ -767,7 +794,16 @@ C16.level_note = (
     'distinct attribute names are forced by HashMap. '
     'In-place writes of a nested content item redirect slots only (a content list of another block pointing to it is excluded by the proved '
     'count invariant). Element.line/column of elements created by toElement() are uninitialised in the code and not compared. '
-    'Xml::Parser::parse(const char*, Element&) is declared but defined nowhere (not callable, not driven).')
+    'Xml::Parser::parse(const char*, Element&) is declared but defined nowhere (not callable, not driven). '
+    'Scope of the spec oracle (what a failing input is claimed for): termination without a sanitizer report, success / failure where the spec names it, '
+    'names / attributes / text / nesting after a round trip, the values of the slots after handle operations, and that a reported line and column are the '
+    'coordinates of an offset of the text. Model-only details (compared for correspondence, never the ground of a failing input): the WORDING of error '
+    'messages, reference counts and which blocks are shared (a library that copies eagerly satisfies "copies are independent" by construction and differs '
+    'from the model in the count dump only). For the static wrappers, whose only report is the text in Error::getErrorString(), line and column are read '
+    'out of that text independently of its wording (position_in_message: the numbers behind the words line and column, else the first two free-standing '
+    'integers); a text from which no position can be read is not judged, except the harness\'s own sentinel (the wrapper returned false and reported nothing). '
+    'The per-case watchdog (2 s) times the library: the harness builds trees in place (linear in the tree size whatever a Variant copy costs) and makes one '
+    'copy of the whole tree per serialise / parse-into operation; depth-1000 chains cost 0.04 s under ASan with shared and with eagerly copied blocks alike.')
 C16.rule = (
     'cases = one parse of a generated / mutated / exhaustively enumerated document, or a tree built by open/attr/text/close then serialised and '
     're-parsed, or a history of Variant handle operations with dumps, or one entity reference; generators aim at the case splits of the proofs: '
